@@ -16,6 +16,7 @@ import k6
 import k7
 import k8
 import k9
+import k10
 import controls
 
 _CTX = {}
@@ -51,20 +52,20 @@ BASE_ASSUME = [
 PROPS = {
     "C01": {
         "title": "The store behaves as a key-value map for every operation sequence",
-        "rules": [k2.p3_publish_after_append, k3.s1_roles, k2m.p4_merge_per_entry_order, k2m.p5_merge_outputs_before_unlink, k5.p17_read_under_index_guard, k2.p14_rollover_test, k2.p6b_pool_filled, k3.s2_live_vs_recovery, k2m.s7_s8_merge_sets, k8.s12_config_setters, k9.s15_position_tracking, k9.s14_reader_cache_keying, k9.s21_forwarding, k9.s22_one_codec, k9.p21_new_active_datafile, k1.w1_file_mutation_api, controls.control("W1")],
-        "decides": "put publishes exactly the appended record's location, only after a successful append, with the id of the file the bytes went to; delete appends a tombstone, removes the key and reports presence; (fileid,len,pos) keep their roles through every call and struct; merge re-points an entry only to the bytes it just copied, at the offset before advancing, resetting the offset per output; the read happens under the index guard; rollover test after each append; a merge rotates the active file above its outputs and removes inputs oldest first; the reader pool is filled to its capacity (also for concurrency 0); put/delete perform exactly the live-path index effects; copy set = removed set; Config setters store what they are given; positions are tracked by the byte counts really transferred and an append reports (position before, position after − before); the reader cache is keyed by the file id asked for; the forwarding layers (trait impl, Handle::get, PooledReader, Reader::get → record.value | None) forward; writer and readers use one bincode configuration; new_active_datafile always switches to the file of the id it was given; data and merge output files are created exclusively (create_new): an id collision after a failed merge fails loudly instead of appending to a foreign file",
+        "rules": [k2.p3_publish_after_append, k3.s1_roles, k2m.p4_merge_per_entry_order, k2m.p5_merge_outputs_before_unlink, k5.p17_read_under_index_guard, k2.p14_rollover_test, k2.p6b_pool_filled, k3.s2_live_vs_recovery, k2m.s7_s8_merge_sets, k8.s12_config_setters, k9.s15_position_tracking, k9.s14_reader_cache_keying, k9.s21_forwarding, k9.s22_one_codec, k9.p21_new_active_datafile, k1.w1_file_mutation_api, controls.control("W1"), k10.s24_record_symmetry],
+        "decides": "put publishes exactly the appended record's location, only after a successful append, with the id of the file the bytes went to; delete appends a tombstone, removes the key and reports presence; (fileid,len,pos) keep their roles through every call and struct; merge re-points an entry only to the bytes it just copied, at the offset before advancing, resetting the offset per output; the read happens under the index guard; rollover test after each append; a merge rotates the active file above its outputs and removes inputs oldest first; the reader pool is filled to its capacity (also for concurrency 0); put/delete perform exactly the live-path index effects; copy set = removed set; Config setters store what they are given; positions are tracked by the byte counts really transferred and an append reports (position before, position after − before); the reader cache is keyed by the file id asked for; the forwarding layers (trait impl, Handle::get, PooledReader, Reader::get → record.value | None) forward; writer and readers use one bincode configuration; new_active_datafile always switches to the file of the id it was given; data and merge output files are created exclusively (create_new): an id collision after a failed merge fails loudly instead of appending to a foreign file; the on-disk record types written are the types read, and each record's Serialize and Deserialize sides emit and decode the same fields, of the same types, in the same order, unconditionally (bincode is positional)",
         "not_decided": "map semantics over histories as behaviour; that len/pos VALUES are right (position arithmetic inside BufWriterWithPos), LRU cache keying, value equality",
     },
     "C02": {
         "title": "Closing and reopening a store preserves exactly its contents, deletions included",
-        "rules": [k3.s2_live_vs_recovery, k4.v1_log_iterator_eof, k1.w7_recovery_read_only, k5.o1_recovery_order, k2m.p5_merge_outputs_before_unlink, k5.ghint_hint_validation, k4.v5_hint_fallback, k2m.p4_merge_per_entry_order, k2m.s7_s8_merge_sets, k3.s1_roles, k9.s15_position_tracking, k9.s16_file_names, k9.s22_one_codec, k9.p21_new_active_datafile, k2.p3_publish_after_append],
-        "decides": "replaying a record performs the index effects writing it performed (tombstones remove); the sequential decoder stops cleanly exactly at end of file; recovery is read-only and creates one fresh file; files are replayed in ascending numeric id order; a merge always rotates the active file above its outputs (so later writes replay after merged copies); hint entries are admitted up to and including the end of the data file; only a missing hint falls back to the scan; hint records mirror the re-pointed entry by role and are appended in the right output; the sequential reader reports each record's (position before, bytes consumed); data/hint file names are `<id>.….<ext>` with distinct extensions and sorted_fileids recognises exactly the data extension; one bincode configuration on both sides; new_active_datafile always switches; the index changes only after the record (value or tombstone) was appended successfully — a failed delete leaves the key in place, memory and disk agree at the next open",
+        "rules": [k3.s2_live_vs_recovery, k4.v1_log_iterator_eof, k1.w7_recovery_read_only, k5.o1_recovery_order, k2m.p5_merge_outputs_before_unlink, k5.ghint_hint_validation, k4.v5_hint_fallback, k2m.p4_merge_per_entry_order, k2m.s7_s8_merge_sets, k3.s1_roles, k9.s15_position_tracking, k9.s16_file_names, k9.s22_one_codec, k9.p21_new_active_datafile, k2.p3_publish_after_append, k10.s24_record_symmetry],
+        "decides": "replaying a record performs the index effects writing it performed (tombstones remove); the sequential decoder stops cleanly exactly at end of file; recovery is read-only and creates one fresh file; files are replayed in ascending numeric id order; a merge always rotates the active file above its outputs (so later writes replay after merged copies); hint entries are admitted up to and including the end of the data file; only a missing hint falls back to the scan; hint records mirror the re-pointed entry by role and are appended in the right output; the sequential reader reports each record's (position before, bytes consumed); data/hint file names are `<id>.….<ext>` with distinct extensions and sorted_fileids recognises exactly the data extension; one bincode configuration on both sides; new_active_datafile always switches; the index changes only after the record (value or tombstone) was appended successfully — a failed delete leaves the key in place, memory and disk agree at the next open; the on-disk record types written are the types read, and each record's Serialize and Deserialize sides emit and decode the same fields, of the same types, in the same order, unconditionally (bincode is positional)",
         "not_decided": "equality of recovered values over histories; max+1 arithmetic beyond its shape",
     },
     "C03": {
         "title": "A process crash at any instant loses no acknowledged write and corrupts nothing",
-        "rules": [k2.p1_append_flushes, k2.p3_publish_after_append, k2m.p4_merge_per_entry_order, k2m.p5_merge_outputs_before_unlink, k1.w1_file_mutation_api, controls.control("W1"), k1.w7_recovery_read_only, k4.v1_log_iterator_eof, k2m.s7_s8_merge_sets, k5.o1_recovery_order, k3.s2_live_vs_recovery, k9.s15_position_tracking, k9.s22_one_codec, k5.ghint_hint_validation],
-        "decides": "order constraints that must hold on every path for every kill point to be safe: an append that returned has flushed; index/ack follow the append; merge never issues an index re-point or hint record for bytes not yet in the file, never unlinks (in ascending order) before outputs are flushed+synced; only create-exclusive+append and whole-file unlink exist; a torn tail is skipped, not fatal; hint file created only after its data file; recovery replays in ascending id order and honours tombstones; append positions come from the bytes really written (a short write is not over-counted); one codec configuration; a hint entry that ends exactly at the end of its data file is admitted (the last record of every completed merge output)",
+        "rules": [k2.p1_append_flushes, k2.p3_publish_after_append, k2m.p4_merge_per_entry_order, k2m.p5_merge_outputs_before_unlink, k1.w1_file_mutation_api, controls.control("W1"), k1.w7_recovery_read_only, k4.v1_log_iterator_eof, k2m.s7_s8_merge_sets, k5.o1_recovery_order, k3.s2_live_vs_recovery, k9.s15_position_tracking, k9.s22_one_codec, k5.ghint_hint_validation, k10.s24_record_symmetry],
+        "decides": "order constraints that must hold on every path for every kill point to be safe: an append that returned has flushed; index/ack follow the append; merge never issues an index re-point or hint record for bytes not yet in the file, never unlinks (in ascending order) before outputs are flushed+synced; only create-exclusive+append and whole-file unlink exist; a torn tail is skipped, not fatal; hint file created only after its data file; recovery replays in ascending id order and honours tombstones; append positions come from the bytes really written (a short write is not over-counted); one codec configuration; a hint entry that ends exactly at the end of its data file is admitted (the last record of every completed merge output); the on-disk record types written are the types read, and each record's Serialize and Deserialize sides emit and decode the same fields, of the same types, in the same order, unconditionally (bincode is positional)",
         "not_decided": "that these order constraints are sufficient; enumeration of crash points as executions",
     },
     "C04": {
@@ -75,8 +76,8 @@ PROPS = {
     },
     "C05": {
         "title": "Compaction never changes what any key reads, now or after a restart",
-        "rules": [k2m.p4_merge_per_entry_order, k3.s1_roles, k2m.s7_s8_merge_sets, k2m.p5_merge_outputs_before_unlink, k2m.t1_tombstone_conservation, k5.ghint_hint_validation, k3.s2_live_vs_recovery, k3.s5_trigger_threshold_roles, k5.o1_recovery_order, k4.v5_hint_fallback, k5.e2_merge_errors_abort, k9.s14_reader_cache_keying, k9.p21_new_active_datafile, k9.s16_file_names, k1.w1_file_mutation_api, controls.control("W1")],
-        "decides": "merge re-points only to copied+flushed bytes with roles intact and hint mirroring the entry; hint/data ids paired; copy set = removed set; sources outlive synced outputs; active file rotated above outputs; hint admission boundary includes equality; T1: deletion markers conserved across the unlink (known finding on this tree); selection compares statistics with thresholds (not triggers); recovery order and hint fallback; merge aborts on the first failed disk operation; LogDir::copy copies (len, pos) of the file id asked for, from cached and fresh readers alike; new_active_datafile always switches (also when nothing was written to the current file); data and hint names differ; merge outputs are created exclusively (create_new): a retried merge can never append to the leftovers of a failed one",
+        "rules": [k2m.p4_merge_per_entry_order, k3.s1_roles, k2m.s7_s8_merge_sets, k2m.p5_merge_outputs_before_unlink, k2m.t1_tombstone_conservation, k5.ghint_hint_validation, k3.s2_live_vs_recovery, k3.s5_trigger_threshold_roles, k5.o1_recovery_order, k4.v5_hint_fallback, k5.e2_merge_errors_abort, k9.s14_reader_cache_keying, k9.p21_new_active_datafile, k9.s16_file_names, k1.w1_file_mutation_api, controls.control("W1"), k10.s24_record_symmetry],
+        "decides": "merge re-points only to copied+flushed bytes with roles intact and hint mirroring the entry; hint/data ids paired; copy set = removed set; sources outlive synced outputs; active file rotated above outputs; hint admission boundary includes equality; T1: deletion markers conserved across the unlink (known finding on this tree); selection compares statistics with thresholds (not triggers); recovery order and hint fallback; merge aborts on the first failed disk operation; LogDir::copy copies (len, pos) of the file id asked for, from cached and fresh readers alike; new_active_datafile always switches (also when nothing was written to the current file); data and hint names differ; merge outputs are created exclusively (create_new): a retried merge can never append to the leftovers of a failed one; the on-disk record types written are the types read, and each record's Serialize and Deserialize sides emit and decode the same fields, of the same types, in the same order, unconditionally (bincode is positional)",
         "not_decided": "value equality before/after as behaviour; which files a threshold setting selects at run time (T1 quantifies over all subsets)",
     },
     "C06": {
@@ -117,8 +118,8 @@ PROPS = {
     },
     "C12": {
         "title": "Hint files are only an accelerator: recovery with or without them agrees",
-        "rules": [k3.s1_roles, k2m.s7_s8_merge_sets, k3.s2_live_vs_recovery, k4.v5_hint_fallback, k5.ghint_hint_validation, k2m.p4_merge_per_entry_order, k5.e2_merge_errors_abort, k5.o1_recovery_order, k9.s15_position_tracking, k9.s16_file_names, k9.s22_one_codec, k2m.p5_merge_outputs_before_unlink, k2.p19_sync_chain, k1.w1_file_mutation_api, controls.control("W1")],
-        "decides": "hint record fields mirror the re-pointed index entry by role; hint n describes data n; the hint loader does to the index what the scanner does for live records; only NotFound falls back to the scan of the same id; admission boundary includes the last record; merge aborts on a failed hint write; recovery order; the scan path derives (len, pos) from the reader's real positions; a hint file is found under the id of its data file with a different extension; one codec for data and hint records; a merge's hint output is flushed and fsynced (LogWriter::sync reaches File::sync_all) before the inputs it indexes are removed — the hint file of a generation is never shorter than its data file; data and merge output files are created exclusively (create_new): an id collision after a failed merge fails loudly instead of appending to a foreign file",
+        "rules": [k3.s1_roles, k2m.s7_s8_merge_sets, k3.s2_live_vs_recovery, k4.v5_hint_fallback, k5.ghint_hint_validation, k2m.p4_merge_per_entry_order, k5.e2_merge_errors_abort, k5.o1_recovery_order, k9.s15_position_tracking, k9.s16_file_names, k9.s22_one_codec, k2m.p5_merge_outputs_before_unlink, k2.p19_sync_chain, k1.w1_file_mutation_api, controls.control("W1"), k10.s24_record_symmetry],
+        "decides": "hint record fields mirror the re-pointed index entry by role; hint n describes data n; the hint loader does to the index what the scanner does for live records; only NotFound falls back to the scan of the same id; admission boundary includes the last record; merge aborts on a failed hint write; recovery order; the scan path derives (len, pos) from the reader's real positions; a hint file is found under the id of its data file with a different extension; one codec for data and hint records; a merge's hint output is flushed and fsynced (LogWriter::sync reaches File::sync_all) before the inputs it indexes are removed — the hint file of a generation is never shorter than its data file; data and merge output files are created exclusively (create_new): an id collision after a failed merge fails loudly instead of appending to a foreign file; the on-disk record types written are the types read, and each record's Serialize and Deserialize sides emit and decode the same fields, of the same types, in the same order, unconditionally (bincode is positional)",
         "not_decided": "that offsets written equal offsets a scan computes (run-time values)",
     },
     "C13": {
